@@ -357,11 +357,30 @@ def symseq_getitem(it, seq, key):
             return SymSeq(seq.length, seq.fn, seq.pycls)
         start, stop, step, count = ops.slice_bounds(it, key, seq.length)
         cnt = mk_int(count)
-        stepv = mk_int(step)
-        st = mk_int(start)
-        if seq.pycls is range:
-            return SymSeq(cnt, lambda i: seq.at(mk_int(as_int_term(st) + as_int_term(i) * as_int_term(stepv))), range)
-        return SymSeq(cnt, lambda i: seq.at(mk_int(as_int_term(st) + as_int_term(i) * as_int_term(stepv))), seq.pycls)
+        if z3.is_int_value(step):
+            sv = step.as_long()
+            return SymSeq(cnt, lambda i: seq.at(mk_int(start + as_int_term(i) * sv)), seq.pycls)
+        if it.truth(mk_bool(step < 0)):
+            raise Unsupported("slice with symbolic negative step")
+        # symbolic positive step: the index map p -> start + p*step is kept behind an uninterpreted function with
+        # the (linear) facts that slice.indices guarantees; the defining equation is recorded as a definition
+        I = z3.Function(fresh_name("idx"), z3.IntSort(), z3.IntSort())
+        p = fresh_int("p")
+        H = it.path.add_hyp
+        H(z3.ForAll([p], z3.Implies(z3.And(p >= 0, p < count), z3.And(I(p) >= start, I(p) < stop, I(p) >= 0, I(p) < n)),
+                    patterns=[I(p)]))
+        H(z3.ForAll([p], z3.Implies(z3.And(p >= 0, p + 1 < count), I(p) + step <= I(p + 1)), patterns=[I(p + 1)]))
+        H(z3.Implies(count > 0, I(0) == start))
+        it.path.__dict__.setdefault("definitions", []).append(
+            z3.ForAll([p], z3.Implies(z3.And(p >= 0, p < count), I(p) == start + p * step), patterns=[I(p)]))
+        it.path.__dict__.setdefault("index_maps", []).append({"I": I, "start": start, "stop": stop, "step": step, "count": count})
+        def mapped(i):
+            pt = as_int_term(i)
+            it.path.assume(z3.Implies(z3.And(pt >= 0, pt < count),
+                                      z3.And(I(pt) >= start, I(pt) < stop, I(pt) >= 0, I(pt) < n)))
+            return seq.at(mk_int(I(pt)))
+
+        return SymSeq(cnt, mapped, seq.pycls)
     if isinstance(key, Sym) and key.pyt in (int, bool) or is_concrete_int(key):
         k = as_int_term(key)
         if is_concrete_int(key) and key < 0:
@@ -457,8 +476,10 @@ def symbolic_comprehension(it, e, env, kind, seq):
         stateful.begin(iv, n)
         try:
             probe = elem(Sym(iv, int))
-        finally:
-            stateful.end()
+        except BaseException:
+            stateful.end(failed=True)
+            raise
+        stateful.end()
     fn_elem = stateful.wrap(elem)
 
     if kind == "dict":
@@ -492,14 +513,20 @@ class StatefulTrial:
 
     def begin(self, iv, n):
         self.iv, self.n = iv, n
+        self.files = list(self.it.state_objects)
         self.saved = [(f, f.snapshot()) for f in self.files]
         self.folds = {}
         self.log_mark = len(self.it.io_log)
         for f in self.files:
             f.begin_trial(iv)
 
-    def end(self):
+    def end(self, failed=False):
         it = self.it
+        if failed:
+            # the body raised: leave the state as the raising iteration left it (exception path)
+            for f in self.files:
+                f._trial = None
+            return
         events = it.io_log[self.log_mark:]
         del it.io_log[self.log_mark:]
         self.effectful = bool(events)
@@ -573,8 +600,10 @@ def symbolic_for(it, s, seq, env):
         stateful.begin(iv, n)
         try:
             probe = run_body(Sym(iv, int), True)
-        finally:
-            stateful.end()
+        except BaseException:
+            stateful.end(failed=True)
+            raise
+        stateful.end()
     body_fn = stateful.wrap(lambda i: run_body(i, False))
     for name in assigned:
         if name not in acc_names:
@@ -884,8 +913,10 @@ def _map(it, a, k):
             stateful.begin(iv, s.len_term())
             try:
                 dispatch_call(it, f, [s.at(Sym(iv, int))], {})
-            finally:
-                stateful.end()
+            except BaseException:
+                stateful.end(failed=True)
+                raise
+            stateful.end()
         fn = stateful.wrap(lambda i: dispatch_call(it, f, [s.at(i)], {}))
         return SymSeq(s.length, fn, list, "map")
     if any(isinstance(x, (SymSeq, FlatSeq)) for x in seqs):
@@ -1308,7 +1339,7 @@ def _partition_all(it, a, k):
         def part(kk):
             kt = as_int_term(kk)
             lo = kt * c
-            ln = mk_int(z3.If(lo + c <= L, c, L - lo))
+            ln = mk_int(it.path.pick(lo + c <= L, c, L - lo))
             return SymSeq(ln, lambda j: s.at(mk_int(lo + as_int_term(j))), tuple, "part")
 
         return SymSeq(count, part, list, "partition_all")
@@ -1350,25 +1381,48 @@ def _groupby(it, a, k):
     bnd = z3.Function(fresh_name("bnd"), z3.IntSort(), z3.IntSort())
     g = fresh_int("g")
     H = it.path.add_hyp
+    h = fresh_int("h")
     H(G >= 0)
     H((L == 0) == (G == 0))
     H(G <= L)
     H(bnd(0) == 0)
     H(bnd(G) == L)
-    H(z3.ForAll([g], z3.Implies(z3.And(g >= 0, g < G), z3.And(bnd(g) < bnd(g + 1), bnd(g) >= 0, bnd(g + 1) <= L)),
-                patterns=[bnd(g + 1)]))
+    # run boundaries: strictly increasing positions in [0, L]  (loop-free triggers)
+    H(z3.ForAll([g], z3.Implies(z3.And(g >= 0, g <= G), z3.And(bnd(g) >= 0, bnd(g) <= L)), patterns=[bnd(g)]))
+    H(z3.ForAll([g], z3.Implies(z3.And(g >= 0, g < G), bnd(g) < L), patterns=[bnd(g)]))
+    H(z3.ForAll([g, h], z3.Implies(z3.And(g >= 0, g < h, h <= G), bnd(g) < bnd(h)),
+                patterns=[z3.MultiPattern(bnd(g), bnd(h))]))
+    # all members of a run share the key of its first element; keys of successive runs strictly increase
     H(z3.ForAll([g, p], z3.Implies(z3.And(g >= 0, g < G, bnd(g) <= p, p < bnd(g + 1)), K(p) == K(bnd(g))),
                 patterns=[z3.MultiPattern(bnd(g), K(p))]))
-    H(z3.ForAll([g], z3.Implies(z3.And(g >= 0, g + 1 < G), K(bnd(g)) < K(bnd(g + 1))), patterns=[bnd(g + 1)]))
+    H(z3.ForAll([g, h], z3.Implies(z3.And(g >= 0, g < h, h < G), K(bnd(g)) < K(bnd(h))),
+                patterns=[z3.MultiPattern(K(bnd(g)), K(bnd(h)))]))
     it.path.__dict__.setdefault("prefix_functions", []).append(bnd)
     it.path.__dict__.setdefault("groupby_models", []).append({"G": G, "bnd": bnd, "K": K, "L": L})
+
+    def key_of_run(gi):
+        gt = as_int_term(gi)
+        # instance of the definition of K at the first position of run g
+        it.path.assume(z3.Implies(z3.And(gt >= 0, gt < G), z3.And(K(bnd(gt)) == key_at(mk_int(bnd(gt))), bnd(gt) >= 0, bnd(gt) < L)))
+        return Sym(K(bnd(gt)), int)
 
     def val(gi):
         gt = as_int_term(gi)
         lo = bnd(gt)
-        return SymSeq(mk_int(bnd(gt + 1) - lo), lambda q: s.at(mk_int(lo + as_int_term(q))), list, "run")
+        ln = bnd(gt + 1) - lo
+        it.path.assume(z3.Implies(z3.And(gt >= 0, gt < G), z3.And(lo >= 0, ln >= 1, bnd(gt + 1) <= L)))
 
-    return SymMap(mk_int(G), lambda gi: Sym(K(bnd(as_int_term(gi))), int), val, key_is_index=False)
+        def member(q):
+            qt = as_int_term(q)
+            pos = lo + qt
+            # ground instances of the run axioms for this member (instantiate-on-access)
+            it.path.assume(z3.Implies(z3.And(gt >= 0, gt < G, qt >= 0, qt < ln),
+                                      z3.And(pos >= 0, pos < L, K(pos) == K(lo), K(pos) == key_at(mk_int(pos)))))
+            return s.at(mk_int(pos))
+
+        return SymSeq(mk_int(ln), member, list, "run")
+
+    return SymMap(mk_int(G), key_of_run, val, key_is_index=False)
 
 
 @model(itertools.accumulate)
@@ -1446,3 +1500,21 @@ def _list_extend(it, lst, a, k):
 
 
 REGISTRY.methods[(list, "extend")] = _list_extend
+
+
+class SymMapFn:
+    """mapping given by a domain predicate and a value function (keys are integers)"""
+
+    is_symbolic_value = True
+
+    def __init__(self, dom, val):
+        self.dom = dom
+        self.val = val
+
+    def sym_getitem(self, it, key):
+        k = as_int_term(key)
+        d = self.dom(k)
+        if not it.path.entails(d):
+            if not it.truth(mk_bool(d)):
+                raise KeyError(key)
+        return self.val(k)
